@@ -432,15 +432,20 @@ def step(w, orc, op, t, p, q, zombies):
         log = list(w.pool.log)
         if send_end:
             for m in w.subs:
-                if not m.alive(now):
-                    continue
                 eps = {_ep(m.notify)} | ({_ep(m.end)} if m.end else set())
                 mine = [e for e in log if (e[0], e[1]) in eps and e[2].p_msg.header_info_block.Action == EventingActions.SubscriptionEnd]
+                if not m.alive(now):
+                    # nothing is sent for a subscription that is not alive - a SubscriptionEnd is a message, too
+                    orc.check(len(mine) == 0, 'subscription_end_sent_for_dead_subscription')
+                    continue
                 orc.check(len(mine) == 1, 'subscription_end_count!=1')
                 want = m.end or m.notify
                 for e in mine:
                     orc.check((e[0], e[1]) == _ep(want) and e[2].p_msg.header_info_block.To == want,
                               'subscription_end_wrong_address')
+        else:
+            orc.check(not any(e[2].p_msg.header_info_block.Action == EventingActions.SubscriptionEnd for e in log),
+                      'subscription_end_sent_although_not_requested')
         for m in w.subs:
             m.ended = True
         w.stopped = True
